@@ -30,7 +30,7 @@ def tcls(st, ft):
 
 def dens_case(ctx, rho, z, st, ft, kind, tag) -> None:
     kw = {"inp": gen.carried(ctx.rng, rho, poisons=(1000.0, 1050.0, 1025.0)), "zinp": gen.carried(ctx.rng, z, poisons=(0.0, 500.0, -5.0)),
-          "suspect_threshold": st, "fail_threshold": ft}
+          "suspect_threshold": gen.ptype(ctx.rng, st), "fail_threshold": gen.ptype(ctx.rng, ft)}
     o, adm = client.expect(ctx, "C13", "qartod.density_inversion_test", kw,
                            lambda: models.density_inversion(rho, z, st, ft),
                            logical={"rho": rho, "z": z, "suspect_threshold": st, "fail_threshold": ft},
@@ -98,7 +98,7 @@ def run(ctx) -> None:
                 dens_case(ctx, rho, z, rng.choice(THR), rng.choice(THR), kind, "enum")
     ctx.exhaustive.append("density_inversion_test: all 4^n (density, depth) missing placements for n<=4 (5 thorough)")
     for _ in range(ctx.pick(1500, 8000)):
-        n = rng.choice([2, 3, 4, 5, 6, 7, 15])
+        n = rng.choice([2, 3, 4, 5, 6, 7, 15, 15, 100, ctx.pick(300, 1500)])
         kind, rho, z = profile(rng, n)
         if rng.random() < 0.3:
             for k in range(n):
